@@ -85,7 +85,10 @@ class Executor:
         return None
     def _stderr(self):
         try:
-            self.errf.seek(0); return self.errf.read().decode('utf-8', 'replace')[-20000:]
+            self.errf.seek(0)
+            txt = self.errf.read().decode('utf-8', 'replace')
+            txt = '\n'.join(l[:300] for l in txt.split('\n'))      # template-heavy frames are cut, the report head survives
+            return txt[-20000:]
         except Exception:
             return ''
     def request(self, fields, timeout=120):
